@@ -32,6 +32,7 @@ type CliOp struct {
 	Data   DataSpec
 	NoObj  bool // the object file does not exist
 	BadFlg bool // a flag value pflag itself refuses (not modelled: must fail and change nothing)
+	Later  bool // run in a later wall-clock second than the image's last modification
 }
 
 var (
@@ -341,6 +342,17 @@ func (e *Env) applyCli(op *Op) []string {
 	if c.Cmd == "add" && !c.NoObj {
 		_ = os.WriteFile(obj, c.Data.Bytes(), 0o644)
 	}
+	if c.Later && preOK {
+		// timestamps have one-second resolution: let the clock pass the image's modification time
+		// so that what this command stamps differs from what earlier commands stamped
+		if f, err := sif.LoadContainerFromPath(e.path, sif.OptLoadWithFlag(os.O_RDONLY)); err == nil {
+			mt := f.ModifiedAt().Unix()
+			_ = f.UnloadContainer()
+			for i := 0; i < 60 && time.Now().Unix() <= mt; i++ {
+				time.Sleep(25 * time.Millisecond)
+			}
+		}
+	}
 	ctx, cancel := context.WithTimeout(context.Background(), 60*time.Second)
 	defer cancel()
 	cmd := exec.CommandContext(ctx, bin, c.argv(e.path, obj)...)
@@ -365,6 +377,14 @@ func (e *Env) applyCli(op *Op) []string {
 	res := "cli err"
 	if ok {
 		res = "cli ok"
+	}
+	if c.Cmd == "setprim" && ok && preOK && e.f != nil && e.stats != nil {
+		if strings.Join(viewLines("", e.f), "\n") != strings.Join(pre, "\n") {
+			e.stats["cli:setprim-changed-the-image"]++
+			if c.Later {
+				e.stats["cli:setprim-changed-the-image-in-a-later-second"]++
+			}
+		}
 	}
 	if c.Cmd == "dump" {
 		res += fmt.Sprintf(" dump=%d:%d", so.Len(), fnv64(so.Bytes()))
@@ -391,6 +411,13 @@ func (e *Env) applyCli(op *Op) []string {
 	} else if e.f != nil {
 		switch c.Cmd {
 		case "header", "list", "info":
+			if c.Cmd == "info" && e.stats != nil {
+				if id, err := strconv.ParseUint(c.Arg, 10, 32); err == nil {
+					if d, err := e.f.GetDescriptor(sif.WithID(uint32(id))); err == nil && !d.ModifiedAt().Equal(d.CreatedAt()) {
+						e.stats["cli:info-of-object-modified-after-creation"]++
+					}
+				}
+			}
 			if why := truthOracle(c, so.String(), e.f); why != "" {
 				viol("C15:untrue-report", why)
 			}
@@ -446,6 +473,9 @@ func (g *Gen) cliAdd(in imgInfo) *CliOp {
 	r := g.r
 	c := &CliOp{Cmd: "add", Flags: map[string]string{}}
 	dt := 1 + r.Intn(11)
+	if r.Chance(1, 5) {
+		dt = 4 // partitions are what setprim, the header architecture and info's metadata lines act on
+	}
 	switch {
 	case r.Chance(1, 20):
 		dt = pick(r, []int{0, 12, -1, 99})
@@ -460,7 +490,7 @@ func (g *Gen) cliAdd(in imgInfo) *CliOp {
 	set := func(k, v string) { c.Flags[k] = v }
 	if dt == 4 || r.Chance(1, 12) {
 		if !r.Chance(1, 10) {
-			pt := 1 + r.Intn(4)
+			pt := pick(r, []int{1, 1, 1, 2, 3, 4})
 			if pt == 2 && in.hasPrim && r.Chance(3, 4) {
 				pt = 1
 			}
@@ -579,6 +609,15 @@ func (g *Gen) cliArg(in imgInfo) string {
 
 func (g *Gen) cliNext(in imgInfo) *CliOp {
 	r := g.r
+	if g.cliFocus != "" {
+		// look at the object the previous command re-stamped
+		a := g.cliFocus
+		g.cliFocus = ""
+		if r.Chance(2, 3) {
+			g.count("cli:info-after-setprim")
+			return &CliOp{Cmd: "info", Arg: a}
+		}
+	}
 	switch r.Intn(20) {
 	case 0, 1, 2, 3, 4, 5, 6:
 		return g.cliAdd(in)
@@ -591,7 +630,18 @@ func (g *Gen) cliNext(in imgInfo) *CliOp {
 		if len(in.parts) > 0 && r.Chance(2, 3) {
 			a = fmt.Sprint(pick(r, in.parts))
 		}
-		return &CliOp{Cmd: "setprim", Arg: a}
+		if len(in.sysParts) > 0 && r.Chance(1, 2) {
+			a = fmt.Sprint(pick(r, in.sysParts))
+		}
+		later := r.Chance(1, 2)
+		if later {
+			g.count("cli:setprim-in-a-later-second")
+			g.cliFocus = a
+			if len(in.parts) > 1 && r.Chance(1, 2) {
+				g.cliFocus = fmt.Sprint(pick(r, in.parts)) // e.g. the partition it demotes
+			}
+		}
+		return &CliOp{Cmd: "setprim", Arg: a, Later: later}
 	case 12, 13, 14:
 		g.count("cli:dump")
 		return &CliOp{Cmd: "dump", Arg: g.cliArg(in)}
